@@ -12,8 +12,9 @@
     The premises are the validity conditions of a call (>= 2 non-empty teams, beta > 0,
     0 < kappa <= 1, tau >= 0, sigma >= 0 with sigma^2 + tau^2 > 0, as many rank keys as teams,
     keys well formed: a key (m, e) denotes m / 2^e with e >= 0).  The equalities do not rest on
-    them except for the shape of the keys (the proofs never cancel a division), they are listed
-    because the property is about valid calls.
+    them except for the shape of the keys (no division is ever cancelled; the only fact about
+    division used is / (c * c) = / c * / c), they are listed because the property is about
+    valid calls.
 
     The float clause of the property (1e-9 relative) is not a theorem; it is decided by the
     monitor that evaluates [spec.py] (the same formulas) next to the implementation. *)
